@@ -34,12 +34,14 @@ def run(prog, rep, tier):
     roots += lp
     check_panic_freedom(prog, r3, roots, "C17", scope_crates=("rustybgpd", "rustybgp_packet", "rustybgp_table"),
                         casts_in=lambda k: bool(FROM_API.fullmatch(prog.name(prog.ix[k].get("root") or k))), cast_rule=r2,
-                        cast_filter=lambda ob: ob.kind.startswith("cast:usize->"),
+                        cast_filter=lambda ob: ob.kind.startswith("cast:usize->") or (ob.kind == "cast:i32->u8" and re.search(r"\bs\.type$|segment|seg\w*\.type", ob.desc)),
+                        cast_bounds=[(r"\bs\.type$|seg\w*\.type", 1, 4)],
                         field_bounds={"rustybgp_packet::bgp::Ipv4Net": (1, 32), "rustybgp_packet::bgp::Ipv6Net": (1, 128)})
     check_value_invariants(prog, r2)
     check_unknown_arm(prog, r2)
     r4 = rep.rule("R17.4", "every attribute attr_to_api can build has an explicit arm in attr_from_api")
     check_arms(prog, r4)
+    check_sibling_messages(prog, r4)
 
 
 def check_ctor_classes(prog, r):
@@ -176,6 +178,59 @@ def check_value_invariants(prog, r):
             r.ok("attr_from_api: AS_PATH segment type is validated")
         else:
             r.fail(fv.name, "aspath-segtype-unchecked", "AS_PATH segments are built from unchecked API values: a segment type outside 1..=4 is accepted (as_path_length hits unreachable!, the wire decoder rejects it)", fv.loc(b))
+
+
+def check_sibling_messages(prog, r):
+    """Sibling arms that build the same API message (DstPrefix / SrcPrefix, v4 / v6 ...) must agree on which fields carry
+    data: a field one arm fills from the internal value and a sibling arm fills with a literal is a value dropped on
+    the way to the API (it then fails to round-trip)."""
+    from collections import defaultdict
+    n_groups = 0
+    for k in crate_fns(prog, "rustybgpd"):
+        nm = prog.ix[k]["name"]
+        if not nm.startswith("rustybgpd::convert::") or "::tests" in nm or "::seed_" in nm:
+            continue
+        fv = view(prog, k)
+        groups = defaultdict(list)
+        for bi, si, s in fv.aggregates(re.compile(r"rustybgp_api::.*")):
+            if s.get("x"):
+                continue
+            rv = s["rv"]
+            if rv.get("fn"):
+                groups[(rv["adt"], rv.get("v"))].append((bi, rv))
+        brs_ = branches(fv)
+        for (adt, v), lst0 in sorted(groups.items()):
+            if len(lst0) < 2:
+                continue
+            # siblings = sites that sit in different arms of one `match` on an internal enum (not merely two places of
+            # the same function that happen to build the same message from different sources)
+            arms_of = {}
+            for bi, rv in lst0:
+                for g, l, h in flat_guards(fv, bi, brs_):
+                    if g[0] == "discr" and len(l) == 1 and g[2] and not re.search(r"option::Option|result::Result|ControlFlow", g[2]):
+                        arms_of.setdefault(repr(g), {})[bi] = next(iter(l))
+            lst = []
+            for gk, m in arms_of.items():
+                if len(set(m.values())) >= 2:
+                    lst = [(bi, rv) for bi, rv in lst0 if bi in m]
+                    break
+            if len(lst) < 2:
+                continue
+            n_groups += 1
+            r.analysed(root_name(prog, k))
+            bad = []
+            for i, f in enumerate(lst[0][1]["fn"]):
+                kinds = ["const" if "k" in rv["fields"][i] else "var" for bi, rv in lst]
+                if "const" in kinds and "var" in kinds:
+                    bad.append((f, [fv.line(b) for (b, rv), kd in zip(lst, kinds) if kd == "const"]))
+            if bad:
+                for f, lines in bad:
+                    r.fail(root_name(prog, k), "sibling-field-dropped:%s.%s" % (adt.split("::")[-1], f),
+                           "%s builds %s in several arms; `%s` is taken from the internal value in one arm and is a literal in another (line %s): the value is lost in the API form"
+                           % (short(root_name(prog, k)), adt.split("::")[-1], f, ", ".join(map(str, lines))), fv.loc(lst[0][0]))
+            else:
+                r.ok("%s: %d arms building %s agree on which fields carry data" % (short(root_name(prog, k)), len(lst), adt.split("::")[-1]))
+    r.floor("groups of sibling API messages in convert.rs", n_groups, 3)
 
 
 def check_arms(prog, r):
